@@ -239,7 +239,7 @@ class CSSStyleRule(cssrule.CSSRule):
 
         sl = SelectorList(selectorText=selectorText, parentRule=self)
         if sl.wellformed:
-            self._selectorList = sl
+            self.selectorList = sl
 
     selectorText = property(
         lambda self: self._selectorList.selectorText,
